@@ -341,6 +341,20 @@ def _add(module: Module, val: ModuleAttr) -> ModuleAttr:
         # Nonetheless gotta raise an error if we get here, somehow.
         _attr_type_error(val)
 
+    # Each attribute has a single name. If we hold `val` under another name already, that name is given up.
+    for key in [k for k, v in module.namespace.items() if v is val and k != val.name]:
+        module.namespace.pop(key)
+        for ctr in (
+            module.ports,
+            module.signals,
+            module.instances,
+            module.instarrays,
+            module.instbundles,
+            module.bundles,
+        ):
+            if ctr.get(key, None) is val:
+                ctr.pop(key)
+
     # Each name denotes a single attribute. Remove any prior holder of the name, of whatever type.
     for ctr in (
         module.ports,
